@@ -701,6 +701,131 @@ func TestVerifRequestLoop(t *testing.T) {
 		}()
 	}
 
+	// ---- W8 (real time: the table-wide lookup is held at the connection cache's lock; Outage.tla MarkBeforePut for the
+	// CacheRegions path): CacheRegions finds the daughters of a split whose parent is still cached. A region it publishes
+	// in the cache must already be marked unavailable - a request that finds it there waits for CacheRegions' establisher
+	// instead of starting one of its own (two establishers release the waiters twice: close of a nil channel).
+	for rep2 := 0; rep2 < 2; rep2++ {
+		func() {
+			name := fmt.Sprintf("W8/request-meets-a-region-that-CacheRegions-is-publishing/%d", rep2)
+			e := newRLEnv(1+rep2, 1, "rs1")
+			parent := e.cl.OnlineRegions("t")[0]
+			warm := e.goGet("a")
+			for i := 0; i < 500 && !rlReturned(e, warm); i++ {
+				time.Sleep(10 * time.Millisecond)
+			}
+			e.cl.Split(parent, []byte("m"), "rs1", "rs2")
+			var mu sync.Mutex
+			ests := map[string]int{}
+			simSetHook(func(point string, c any, arg any) {
+				if r, ok := arg.(hrpc.RegionInfo); ok && point == "establish.located" && bytes.HasPrefix(r.Name(), []byte("t,")) {
+					mu.Lock()
+					ests[string(r.Name())]++
+					mu.Unlock()
+				}
+			})
+			e.c.clients.m.Lock()
+			done := make(chan struct{})
+			go func() { e.c.CacheRegions([]byte("t")); close(done) }()
+			time.Sleep(200 * time.Millisecond) // it has put the first daughter into the cache and waits for the lock to drop the parent's connection
+			c1, c2 := e.goGet("a"), e.goGet("n")
+			time.Sleep(200 * time.Millisecond)
+			e.c.clients.m.Unlock()
+			select {
+			case <-done:
+			case <-time.After(10 * time.Second):
+				rep.bad("request-stranded", "%s: CacheRegions has not returned 10 s after the lock was released", name)
+			}
+			for i := 0; i < 1000 && !(rlReturned(e, c1) && rlReturned(e, c2)); i++ {
+				time.Sleep(10 * time.Millisecond)
+			}
+			time.Sleep(300 * time.Millisecond)
+			simSetHook(nil)
+			mu.Lock()
+			for rn, k := range ests {
+				if k > 1 {
+					rep.bad("two-establishers", "%s: %d establishers ran for region %q, which CacheRegions was publishing when a request for it arrived", name, k, rn)
+				}
+			}
+			mu.Unlock()
+			e.mu.Lock()
+			for _, cc := range []*rlCall{c1, c2} {
+				switch {
+				case !cc.returned:
+					rep.bad("request-stranded", "%s: get %s has not returned 10 s after CacheRegions went on", name, cc.id)
+				case cc.err != nil:
+					rep.bad("request-failed-by-a-connection-fault", "%s: get %s was handed %v on a healthy cluster", name, cc.id, cc.err)
+				}
+			}
+			e.mu.Unlock()
+			e.c.Close()
+			time.Sleep(100 * time.Millisecond)
+			rep.Scenarios++
+			rep.Distinct++
+		}()
+	}
+
+	// ---- W9: a region in transition - for a while hbase:meta has no row for it (and nobody serves it). Requests for its keys,
+	// the first of which is the key EQUAL to the stop key of the region in front of it, wait for the region to come back and
+	// then succeed; none of them comes back with an error of the client's making (a request sent to the neighbour is
+	// answered WrongRegionException; a lookup that gives up answers "cannot find region").
+	for _, warm := range []bool{false, true} {
+		verifsim.Bubble(t, func(t *testing.T) {
+			name := fmt.Sprintf("W9/region-missing-from-meta-for-a-while/neighbour-known=%v", warm)
+			e := newRLEnv(1, 3)
+			regs := e.cl.OnlineRegions("t")
+			if warm {
+				e.goGet("a")
+				time.Sleep(time.Second)
+				synctest.Wait()
+			}
+			e.cl.Lock()
+			regs[1].Online = false
+			e.cl.Unlock()
+			type res struct {
+				what string
+				err  error
+			}
+			results := make(chan res, 8)
+			vals := map[string]map[string][]byte{"f": {"q": []byte("v")}}
+			for i, key := range [][]byte{regs[1].Start, append(append([]byte{}, regs[1].Start...), 0), regs[1].Start} {
+				go func() {
+					if i == 2 {
+						p, _ := hrpc.NewPut(context.Background(), []byte("t"), key, vals)
+						_, err := e.c.Put(p)
+						results <- res{fmt.Sprintf("put %q", key), err}
+						return
+					}
+					g, _ := hrpc.NewGet(context.Background(), []byte("t"), key)
+					_, err := e.c.Get(g)
+					results <- res{fmt.Sprintf("get %q", key), err}
+				}()
+			}
+			time.Sleep(700 * time.Millisecond)
+			synctest.Wait()
+			e.cl.Lock()
+			regs[1].Online = true
+			e.cl.Unlock()
+			time.Sleep(2 * time.Minute)
+			synctest.Wait()
+			for i := 0; i < 3; i++ {
+				select {
+				case r := <-results:
+					if r.err != nil {
+						sig := "request-failed-by-a-transient-fault"
+						if strings.Contains(r.err.Error(), "WrongRegionException") {
+							sig = "request-misrouted"
+						}
+						rep.bad(sig, "%s: %s failed with %v although its context is live and the region came back", name, r.what, r.err)
+					}
+				default:
+					rep.bad("request-stranded", "%s: a request for the region is still blocked 2 virtual minutes after it came back", name)
+				}
+			}
+			finish(e, name)
+		})
+	}
+
 	// ---- W4: hbase:meta lags behind a move: the old server answers "not serving" (to requests and to the probe) while the region
 	// is already served elsewhere; meta catches up a little later. The establisher must look the region up again.
 	for _, late := range []time.Duration{50 * time.Millisecond, 3 * time.Second} {
